@@ -63,7 +63,7 @@ UNSUPPORTED = [r"(?=a)", r"(?!b)", r"(?<=a)", r"(?<!b)", r"\s", r"\S", r"\D", r"
 SKELETONS = ["%s", "a%s", "%sa", "(%s|a)", "(?:a%s)+", "a|%s", "(a%s)?b", "^%s$", "[ab]%s{2}"]
 MAX_REPEATS = (32, 2, 50)
 BOUNDS = {"quick": {"D": 2, "D_other": 1, "full_cap": 200, "max_execs": 600},
-          "thorough": {"D": 3, "D_other": 2, "full_cap": 2000, "max_execs": 6000}}
+          "thorough": {"D": 3, "D_other": 1, "full_cap": 1000, "max_execs": 1500}}
 
 
 def groups(x):
